@@ -4,10 +4,12 @@
 
    FULL claim        C14_value_roundtrip_all_data  (every well-formed data value)      REFUTED: C14_refuted_*
    guarded claim     C14_value_roundtrip           (in_domain: not min-int64, no float that prints like an integer)
-                     stated; PROVED for every value without finite floats (C14_value_roundtrip_partial: integers,
-                     booleans, nil, +-Inf, NaN, strings over all bytes, nested arrays and maps with keys of every
-                     type, no bound on size or depth, through the lexer and parser models); for finite floats
-                     decided per run by the differential check and by C14_roundtrip_examples (computed). *)
+                     stated; PROVED with one more decidable guard (C14_value_roundtrip_guarded: floats_conv, i.e. the
+                     decimal conversion returns the bits of every finite float of v for its printed text), hence
+                     unconditionally for values without finite floats (C14_value_roundtrip_partial); no bound on size
+                     or nesting, through the lexer and parser models.  That floats_conv dec_conv holds for EVERY
+                     float64 is not proved (it is ParseFloat . FormatFloat = id for the two Gallina functions): it is
+                     computed on the examples (C14_roundtrip_examples) and checked on every float of every run. *)
 From Coq Require Import List ZArith NArith Bool Sorting.Sorted Sorting.Permutation.
 From GrolModel Require Import Ast Parser Values Cmp Maps SaveLoad.
 From GrolProofs Require Import SaveLoad_proofs SaveLoad_examples SaveLoad_roundtrip.
@@ -37,34 +39,39 @@ Theorem C14_refuted_witnesses :
 Proof. exact refutation_witnesses. Qed.
 
 (* ------------------------------------------------------------------ the proved part of the guarded claim *)
+(* the guarded claim with one more DECIDABLE guard: on the finite floats of v the decimal conversion returns the
+   float's bit pattern for the printed text (floats_conv: a computation for dec_conv; for Go's strconv it is the
+   documented ParseFloat(FormatFloat(v)) = v).  Everything else - lexer, parser, evaluator, nesting - is proved. *)
+Theorem C14_value_roundtrip_guarded : forall k v,
+  good_name k = true -> in_domain v = true -> floats_conv dec_conv v = true ->
+  read_back dec_conv (save_line k v) = Some (k, v).
+Proof. exact value_roundtrip_dec. Qed.
+
+(* without finite floats the extra guard is void: proved for every such value *)
 Theorem C14_value_roundtrip_partial : forall k v,
   good_name k = true -> in_domain v = true -> no_finite_float v = true ->
   read_back dec_conv (save_line k v) = Some (k, v).
-Proof.
-  intros k v Hk Hd Hf. apply value_roundtrip; [exact Hk|]. unfold rt_dom. rewrite Hd, Hf. reflexivity.
-Qed.
+Proof. exact value_roundtrip. Qed.
 
-(* ... for ANY number conversion that inverts FormatInt on non-negative int64 (strconv.ParseInt is the trusted one) *)
-Theorem C14_value_roundtrip_partial_any_conv : forall conv,
+(* ... and for ANY number conversion that inverts FormatInt on non-negative int64 and satisfies floats_conv on v
+   (strconv.ParseInt / ParseFloat are the trusted ones) *)
+Theorem C14_value_roundtrip_any_conv : forall conv,
   (forall n, (Z.of_N n <= max_int64)%Z -> conv_int conv (fmt_nat n) = Some (Z.of_N n)) ->
-  forall k v, good_name k = true -> in_domain v = true -> no_finite_float v = true ->
+  forall k v, good_name k = true -> in_domain v = true -> floats_conv conv v = true ->
   read_back conv (save_line k v) = Some (k, v).
-Proof.
-  intros conv Hc k v Hk Hd Hf. apply value_roundtrip_conv; [exact Hc|exact Hk|]. unfold rt_dom. rewrite Hd, Hf. reflexivity.
-Qed.
+Proof. exact value_roundtrip_conv. Qed.
 
-(* equal value AND same type: two values of that domain with the same printed form are the same value *)
-Theorem C14_inspect_injective_partial : forall v w,
-  in_domain v = true -> no_finite_float v = true -> in_domain w = true -> no_finite_float w = true ->
+(* equal value AND same type: two values of the domain with the same printed form are the same value *)
+Theorem C14_inspect_injective_guarded : forall v w,
+  in_domain v = true -> floats_conv dec_conv v = true -> in_domain w = true -> floats_conv dec_conv w = true ->
   inspect v = inspect w -> v = w.
-Proof.
-  intros v w A B C D. apply inspect_injective; unfold rt_dom; [rewrite A, B|rewrite C, D]; reflexivity.
-Qed.
+Proof. exact inspect_injective. Qed.
 
-(* finite floats and everything else, on representative values (computed) *)
+(* the guarded claim and its float guard on representative values (computed) *)
 Theorem C14_roundtrip_examples :
-  List.length in_dom_examples = 39%nat /\ forallb (reads_back [107%N]) in_dom_examples = true.
-Proof. exact (conj C14_examples_count C14_roundtrip_examples_ok). Qed.
+  List.length in_dom_examples = 39%nat /\ forallb (reads_back [107%N]) in_dom_examples = true /\
+  forallb (floats_conv dec_conv) in_dom_examples = true.
+Proof. exact (conj C14_examples_count (conj C14_roundtrip_examples_ok C14_examples_float_guard)). Qed.
 
 (* ------------------------------------------------------------------ one binding per line *)
 Theorem C14_one_line : forall v, is_data v = true -> no_nl (inspect v).
@@ -130,9 +137,10 @@ Proof. exists [107%N; 49%N]. eexists. repeat split; vm_compute; reflexivity. Qed
 Print Assumptions C14_refuted_integral_float.
 Print Assumptions C14_refuted_min_int64.
 Print Assumptions C14_refuted_witnesses.
+Print Assumptions C14_value_roundtrip_guarded.
 Print Assumptions C14_value_roundtrip_partial.
-Print Assumptions C14_value_roundtrip_partial_any_conv.
-Print Assumptions C14_inspect_injective_partial.
+Print Assumptions C14_value_roundtrip_any_conv.
+Print Assumptions C14_inspect_injective_guarded.
 Print Assumptions C14_roundtrip_examples.
 Print Assumptions C14_one_line.
 Print Assumptions C14_saved_line_has_no_newline.
